@@ -71,11 +71,35 @@ def _child(argv, cwd, env, out_path, err_path, stdin_path, opts):
                         return
                 rec = {"t": time.monotonic_ns(), "ev": event, "main": threading.get_ident() == main_ident,
                        "args": [a if isinstance(a, (str, int, type(None))) else (os.fsdecode(a) if isinstance(a, (bytes, os.PathLike)) else repr(a)[:200]) for a in args[:3]]}
+                if event == "subprocess.Popen" and len(args) > 3 and isinstance(args[3], dict):
+                    rec["cond_env"] = {k: v for k, v in args[3].items() if isinstance(k, str) and k.startswith("COND_")}
                 af.write(json.dumps(rec) + "\n")
             except Exception:
                 pass
 
         sys.addaudithook(hook)
+
+    if opts.get("stdout_log"):
+        # every write to Conductor's stdout/stderr also lands, with a monotonic timestamp, in a JSONL
+        # file: one clock for spawns (audit), status lines and the probes' records
+        sl = open(opts["stdout_log"], "a", buffering=1)
+
+        class _Tee:
+            def __init__(self, inner, name):
+                self._i, self._n = inner, name
+
+            def write(self, x):
+                try:
+                    sl.write(json.dumps({"t": time.monotonic_ns(), "stream": self._n, "text": x}) + "\n")
+                except Exception:
+                    pass
+                return self._i.write(x)
+
+            def __getattr__(self, a):
+                return getattr(self._i, a)
+
+        sys.stdout = _Tee(sys.stdout, "stdout")
+        sys.stderr = _Tee(sys.stderr, "stderr")
 
     if opts.get("clock") is not None:
         import conductor.execution.version_index as vi
